@@ -248,3 +248,9 @@ def make_noninterf(file, fn):
 
 for _f in NONINTERF:
     make_noninterf(*_f)
+
+
+def fidelity(tier, seed):
+    """A-FRONT guard: MSSM a_mu and mass-matrix functions, interpreter (float mode) vs compiled real code on real spectra"""
+    from gm2v import fidelity as _fid
+    return _fid.mssm_model_guard(seed=seed)
